@@ -174,8 +174,23 @@ package v2
 //@   property C28 C29
 //@   callee *RequestMetaHeader).GetTtl
 //@   defines result == reqTTL()
+// The access checks of a PUT may be skipped ("skip request") only for a split object part on
+// a node that is KNOWN not to serve the container - the membership look-up answered, without an
+// error, "no". An unknown membership is not a reason to let the request through unchecked.
+//@ ghost pred serverKnownOutsideContainer() bool
+//@ ghost pred headerHasSplit() bool
+//@ callrule c28_container_membership in (Service).PutRequestToInfo
+//@   property C28 C29
+//@   callee *).ServerInContainer
+//@   defines (err == nil && !res0) == serverKnownOutsideContainer()
+//@ callrule c28_split_header in (Service).PutRequestToInfo
+//@   property C28 C29
+//@   callee *Header).GetSplit
+//@   defines (result != nil) == headerHasSplit()
 //@ func (Service).PutRequestToInfo
 //@   property C28 C29
+//@   ensures [checks_skipped_only_for_a_split_part_on_a_node_known_outside_the_container] err == ErrSkipRequest && !resultOf(err, "*") ==> serverKnownOutsideContainer() && headerHasSplit()
+//@   valid ErrSkipRequest != nil
 //@   ensures [tombstone_put_is_delete_unless_replication] err == nil ==> res0.Operation == ite(op == acl.OpObjectDelete && res0.RequestRole == acl.RoleContainer && reqTTL() == 1, acl.OpObjectPut, op)
 
 // The verdict cache is shared with the object validator (internal/crypto.AuthenticateObject
